@@ -156,6 +156,114 @@ def identity_programs():
     return out
 
 
+def level_programs():
+    """`break N` / `continue N` (N = 2, 3) leaving one or two nested try statements (with and without finally, with a
+    catch that must not see the jump) inside two or three nested loops / a switch; every iteration and every finally
+    echoes a marker, so a level consumed in the wrong place shows as repeated or missing iterations / finally runs"""
+    out = []
+    base = {"classes": CLASSES, "ifaces": IFACES, "funcs": []}
+
+    def loop(kind, ctr, body, k=3):
+        if kind == "for":
+            return [["for", [["assign", ctr, lit(0)]], ["bin", "Lt", var(ctr), lit(k)], [["postinc", ctr]], body]]
+        if kind == "while":
+            return [["expr", ["assign", ctr, lit(0)]],
+                    ["while", ["bin", "Lt", var(ctr), lit(k)], [["expr", ["postinc", ctr]]] + body]]
+        if kind == "foreach":
+            return [["foreach", ["arr", [lit(x) for x in range(k)]], None, ctr, body]]
+        if kind == "dowhile":
+            return [["expr", ["assign", ctr, lit(0)]],
+                    ["dowhile", [["expr", ["postinc", ctr]]] + body, ["bin", "Lt", var(ctr), lit(k)]]]
+        if kind == "switch":
+            return [["switch", lit(1), [["case", lit(1), body + [["break", 1]]], ["default", [echo("D")]]]]]
+        raise ValueError(kind)
+
+    def wrap_try(body, ntry, fin, tagc):
+        for t in range(ntry):
+            catches = [["Exception", None, [echo("C%s%d" % (tagc, t))]]] if (t + len(tagc)) % 2 == 0 else []
+            f = [echo("f%d" % t)] if fin or not catches else None
+            body = [["try", [echo("t%d" % t)] + body + [echo("u%d" % t)], catches, f]]
+        return body
+
+    shapes = [("for", "for"), ("while", "for"), ("foreach", "while"), ("for", "switch"), ("dowhile", "foreach")]
+    for outer, inner in shapes:
+        for third in (None, "for"):
+            for jmp in ("break", "continue"):
+                for lv in (2, 3):
+                    depth = 2 + (1 if third else 0)
+                    if lv > depth:
+                        continue
+                    for ntry in (1, 2):
+                        for fin in (True, False):
+                            for where in ("inner", "middle"):
+                                cond = ["bin", "Eq", var("b"), lit(1)]
+                                jump = ["if", cond, [[jmp, lv]], [], []]
+                                core = [tag("b", var("b")), jump, echo("x")]
+                                if where == "inner":
+                                    ib = loop(inner, "b", wrap_try(core, ntry, fin, "i"))
+                                    mb = [tag("a", var("a"))] + ib + [echo("y")]
+                                else:
+                                    # the try statement(s) enclose the whole inner loop: the jump leaves loop and trys
+                                    ib = loop(inner, "b", core)
+                                    mb = [tag("a", var("a"))] + wrap_try(ib, ntry, fin, "m") + [echo("y")]
+                                ob = loop(outer, "a", mb, 2)
+                                if third:
+                                    ob = loop(third, "c", [tag("c", var("c"))] + ob + [echo("z")], 2)
+                                out.append(dict(base, main=ob + [echo("end")]))
+    return out
+
+
+def sequence_programs():
+    """ONE try statement (in a loop body, and in a function called repeatedly) handles a SEQUENCE of throws of different
+    classes: every ordered pair / triple of thrown classes against clause lists where a later, more general clause
+    also accepts what an earlier, more specific clause accepts — the clause chosen must not depend on history"""
+    import itertools
+    out = []
+    layouts = [["E2", "E1", "Exception"], ["E2", "E1"], ["I1", "E4", "Exception"], ["E4|E2", "E1", "Throwable"], ["E3", "I1"]]
+    classes = ["E1", "E2", "E3", "E4"]
+    seqs = list(itertools.permutations(classes, 2)) + [("E1", "E2", "E1"), ("E4", "E3", "E2", "E1"), ("E1", "E1", "E2", "E2", "E3")]
+    for lay in layouts:
+        catches = [[ty, "e", [echo("<%s:" % ty), ["echo", ["class", var("e")]], echo(">")]] for ty in lay]
+        for seq in seqs:
+            pick = ["switch", var("k"), [["case", lit(i), [["throw", ["new", c, lit("m")]]]] for i, c in enumerate(seq)] +
+                    [["default", [echo("none")]]]]
+            tr = ["try", [tag("k", var("k")), pick, echo("u")], catches, [echo("f;")]]
+            inloop = [["try", [["for", [["assign", "k", lit(0)]], ["bin", "Le", var("k"), lit(len(seq))], [["postinc", "k"]], [tr]]],
+                       [["Exception", None, [echo("OUT")]]], None], echo("end")]
+            out.append({"classes": CLASSES, "ifaces": IFACES, "funcs": [], "main": inloop})
+            fn = {"name": "once", "params": [["k", None]], "body": [tr, ["return", var("k")]]}
+            calls = []
+            for i in range(len(seq) + 1):
+                calls.append(["try", [tag("r", ["call", "once", [lit(i)]])], [["Exception", None, [echo("OUT")]]], None])
+            out.append({"classes": CLASSES, "ifaces": IFACES, "funcs": [fn], "main": calls + [echo("end")]})
+    return out
+
+
+def hierarchy_programs():
+    """interfaces declared at every level of the extends chain (own class, parent, grandparent) and reached through
+    interface-extends chains; the catch clauses are ordered so that a wrong answer of the type test changes which
+    clause runs"""
+    out = []
+    ifaces = [["IA", []], ["IB", ["IA"]], ["IC", []], ["ID", ["IC", "IA"]], ["IE", []]]
+    classes = [["G0", "Exception", ["IB"]],        # grandparent declares IB (which extends IA)
+               ["P0", "G0", ["IC"]],                # parent declares IC
+               ["K0", "P0", ["IE"]],                # the class itself declares IE
+               ["K1", "P0", []],                    # sibling without own interfaces
+               ["Q0", "Exception", ["ID"]],         # unrelated chain: ID extends IC and IA
+               ["Q1", "Q0", []],
+               ["Z0", "Exception", []]]
+    thrown = ["G0", "P0", "K0", "K1", "Q0", "Q1", "Z0"]
+    orders = [["IE", "IC", "IB", "IA", "Exception"], ["IA", "IB", "IC", "IE"], ["IC", "IA"], ["ID", "IB", "G0"],
+              ["K0", "IE", "P0", "IC", "G0", "IA"], ["Q0", "IC"], ["IB", "Q1", "Throwable"], ["IE|ID", "IA"], ["Z0", "IC|IB"]]
+    for cls in thrown:
+        for order in orders:
+            catches = [[ty, "e", [echo("<%s>" % ty), ["echo", ["class", var("e")]]]] for ty in order]
+            inner = ["try", [echo("t;"), ["throw", ["new", cls, lit("m")]], echo("never")], catches, [echo(";f")]]
+            main = [["try", [inner, echo(";after")], [["Exception", None, [echo(";outer")]]], [echo(";F")]]]
+            out.append({"classes": classes, "ifaces": ifaces, "funcs": [], "main": main})
+    return out
+
+
 # ----------------------------------------------------------------------------- random programs
 class Gen5(G.Gen):
     """C02's typed generator plus try/catch/finally, throw and a random exception hierarchy"""
@@ -163,19 +271,20 @@ class Gen5(G.Gen):
     def __init__(self, rng):
         super().__init__(rng)
         r = rng
-        self.ifaces = [["I%d" % i, []] for i in range(r.randint(0, 2))]
-        if len(self.ifaces) == 2 and r.random() < 0.5:
-            self.ifaces[1][1] = ["I0"]
+        self.ifaces = []
+        for i in range(r.randint(0, 3)):
+            ext = [x[0] for x in self.ifaces if r.random() < 0.4]
+            self.ifaces.append(["I%d" % i, ext])
         self.classes = []
         for i in range(r.randint(1, 5)):
             parent = "Exception" if not self.classes or r.random() < 0.4 else r.choice(self.classes)[0]
-            impls = [x[0] for x in self.ifaces if r.random() < 0.3]
+            impls = [x[0] for x in self.ifaces if r.random() < 0.35]
             self.classes.append(["X%d" % i, parent, impls])
         self.trydepth = 0
 
     def catch_types(self):
         r = self.rng
-        pool = [c[0] for c in self.classes] * 2 + [i[0] for i in self.ifaces] + ["Exception", "Throwable"]
+        pool = [c[0] for c in self.classes] * 2 + [i[0] for i in self.ifaces] * 2 + ["Exception", "Throwable"]
         return r.sample(pool, min(len(pool), r.choice([0, 1, 1, 2, 3])))
 
     def new_exc(self):
@@ -328,6 +437,12 @@ def main(ck):
                         cases.append((path_program(a, lay, ca, f), "paths:%s:%s:%s:%s" % (a, lay, ca, f)))
         for pr in identity_programs():
             cases.append((pr, "identity"))
+        for pr in level_programs():
+            cases.append((pr, "levels"))
+        for pr in hierarchy_programs():
+            cases.append((pr, "hierarchy"))
+        for pr in sequence_programs():
+            cases.append((pr, "sequences"))
         nrand = 250 if ck.tier == "quick" else 4000
         discarded = 0
         while nrand > 0:
@@ -426,7 +541,7 @@ def main(ck):
               rule="programs: every combination of try-block exit (none, return, break, continue, throw of 4 classes, Go panic, throw from a "
                    "callee) x catch layout (none, one, specific-then-general, general-then-specific, interface-then-Exception, union A|B) x catch "
                    "action (none, rethrow, throw new, return, break) x finally (absent, plain, return, throw), each inside a loop inside "
-                   "a function inside an outer try (nesting 2); identity / rethrow / unwinding probes; seeded random typed programs with "
+                   "a function inside an outer try (nesting 2); identity / rethrow / unwinding probes; break N / continue N (N = 2, 3) leaving 1-2 nested trys in 2-3 nested loops/switch; sequences of throws of different classes through ONE try statement (in a loop, in a function called repeatedly; 5 clause lists x 15 sequences); hierarchy probes (interface declared by the class, its parent or grandparent, interface-extends chains, 9 clause orders x 7 thrown classes); seeded random typed programs with "
                    "1-5 exception classes and 0-2 interfaces, try nesting <= 3; CLI: real subprocesses over parse errors, uncaught "
                    "throwables, exit(n), normal end, with and without open output buffers; non-trivial = distinct program containing a try / a CLI case",
               traces=len(terms) + len(cli))
